@@ -177,6 +177,43 @@ def t2_overflow_follows_the_draw(ctx: Ctx):
         raise ShapeError(f'only {n} bounded stochastic families found')
 
 
+def t3_context_parameters(ctx: Ctx):
+    """"Every context family and its parameters": a stochastic context can also be built inside a program
+    (`with fp.IEEEContext(5, 16, num_randbits=3):`), where the constructor's arguments are FPy numbers and are converted by
+    the parameter's annotation.  `_cvt_context_arg` is evaluated, from its source, on an integer-valued argument under each
+    kind of annotation the constructors use: `int` and `int | None` (num_randbits) give a Python int."""
+    from fractions import Fraction
+
+    from ..minipy import Interp, Obj
+    BYTE = 'fpy2/interpret/byte.py'
+    funcs = {n: f for n, f in ctx.repo.functions(BYTE) if '.' not in n}
+    fn = funcs.get('_cvt_context_arg')
+    if fn is None:
+        raise ShapeError('_cvt_context_arg not found')
+    # the annotations in use: read off the constructors
+    anns = set()
+    for rel in sorted(r_ for r_ in ctx.repo.modules if r_.startswith(CTX) and r_.endswith('.py')):
+        for q, f in ctx.repo.functions(rel):
+            if q.endswith('.__init__'):
+                for a in f.args.args + f.args.kwonlyargs:
+                    if a.arg == 'num_randbits' and a.annotation is not None:
+                        anns.add(norm(a.annotation))
+    if not anns:
+        raise ShapeError('no constructor takes num_randbits any more')
+    INT, NONE, FLOAT = Obj('type', label='int'), Obj('type', label='NoneType'), Obj('type', label='float')
+    union = Obj('UnionType', members=[INT, NONE])
+    val = Obj('Float', is_integer=lambda: True, label='3')
+    for what, ty, want in (('int', INT, 3), ('int | None', union, 3)):
+        if what == 'int | None' and not any('None' in a for a in anns):
+            continue
+        it = Interp(funcs, globals_={'int': INT, 'float': FLOAT, 'RealFloat': Obj('type', label='RealFloat'), 'FP64': Obj('Context'), 'type': lambda v: NONE if v is None else Obj('type')},
+                    is_a=lambda k, c: k == c or (k == 'UnionType' and c == 'types.UnionType'),
+                    overrides={'unwrap_foreign': lambda a: a, '_cvt_float': lambda a: val, 'typing.get_args': lambda t: list(t.fields['members']), 'int': lambda v: 3, 'type': lambda v: NONE if v is None else Obj('type')})
+        got = it.call_function(fn, [Obj('class'), 'num_randbits', Fraction(3), ty])
+        ctx.check(got == want, BYTE, fn, '_cvt_context_arg', f'a parameter annotated `{what}` receives an integer-valued argument as a Python int',
+                  f'receives {got!r}: `with fp.IEEEContext(5, 16, num_randbits=3): ...` raises TypeError: Expected \'int\', got Fraction (constructor annotations in use: {sorted(anns)})')
+
+
 def p3_round_reached(ctx: Ctx):
     """One draw per rounding of a finite non-zero operand: in each context's `_round_at`, no path returns a value for such
     an operand without going through the rounding call (the only place a draw is taken).  A shortcut for operands that
@@ -234,6 +271,7 @@ RULES = [
     Rule('C17.T2', 'in a stochastic context an overflow out of the gap above the largest value follows the draw, not the base mode', t2_overflow_follows_the_draw, 2, 'T'),
     Rule('C17.P3', 'no context returns a finite non-zero operand without going through the rounding call (one draw per rounding, representable operands included)', p3_round_reached, 15, 'P'),
     Rule('C17.S1', 'round_params widens the engine precision by the random bits', f3_round_params, 10, 'S'),
+    Rule('C17.T3', 'a context built inside a program receives its integer parameters (num_randbits: int | None) as integers', t3_context_parameters, 2, 'T'),
 ]
 
 from ..selftest import Mutant  # noqa: E402
@@ -241,6 +279,8 @@ from ..selftest import Mutant  # noqa: E402
 CTX = 'fpy2/number/context/'
 
 MUTANTS = [
+    Mutant('optional-integer-parameter-left-unconverted', 'fpy2/interpret/byte.py', "    if isinstance(ty, types.UnionType) and arg is not None:\n        members = [t for t in typing.get_args(ty) if t is not type(None)]\n        if len(members) == 1:\n            ty = members[0]\n", "", 'C17.T3',
+           'finding F141 before its repair: a stochastic context cannot be built inside a program'),
     Mutant('probe-rounds-the-rounded-value', CTX + 'mpb_fixed.py', "        operand = xr\n        xr = xr.round(min_n=n, rm=self.rm,", "        xr = xr.round(min_n=n, rm=self.rm,", 'C17.T2',
            'seeded change C17d (with the probe on `xr`): every draw of an operand in the top gap gives the largest value', count=1),
     Mutant('probe-rounds-the-rounded-value-float', CTX + 'mpb_float.py', "                        x.round(self.pmax, n, RoundingMode.RTZ)", "                        rounded.round(self.pmax, n, RoundingMode.RTZ)", 'C17.T2'),
